@@ -103,11 +103,87 @@ func genC02() []*InstCase {
 	return g.cases
 }
 
+// genC02Spellings: the same addresses written through a nested sum -- the whole address behind an EQU name (`LOCAL1 EQU EBP-4` /
+// `[LOCAL1]`) or its tail in parentheses (`[EBX+(ESI*4-8)]`, `[(BX-2)]`).  Shapes with a base register and a non-zero displacement.
+func genC02Spellings() []*InstCase {
+	g := &instGen{prop: "C02"}
+	var shapes []MemShape
+	for _, b := range []int{3, 5, 4, 0} {
+		for _, ix := range [][2]int{{-1, 1}, {6, 1}, {7, 4}, {1, 8}} {
+			for _, d := range []int64{-4, -8, -128, -129, -0x100, 8, 0x100} {
+				shapes = append(shapes, MemShape{ASize: 32, Base: b, Index: ix[0], Scale: ix[1], Disp: d, HasDisp: true})
+			}
+		}
+	}
+	for _, p := range [][2]int{{3, -1}, {5, -1}, {6, -1}, {3, 6}, {5, 7}} {
+		for _, d := range []int64{-4, -2, -128, -129, -0x100, 8} {
+			shapes = append(shapes, MemShape{ASize: 16, Base: p[0], Index: p[1], Scale: 1, Disp: d, HasDisp: true})
+		}
+	}
+	k := 0
+	for si, sh := range shapes {
+		modes := []int{16, 32}
+		if sh.ASize == 16 {
+			modes = []int{16}
+		}
+		names := regNames[R32]
+		if sh.ASize == 16 {
+			names = regNames[R16]
+		}
+		num := si % 2
+		inner := sh.render(0, num)
+		inner = inner[1 : len(inner)-1]
+		d := spellInt(sh.Disp, num)
+		if sh.Disp > 0 {
+			d = "+" + d
+		}
+		paren := "[(" + names[sh.Base] + d + ")]"
+		if sh.Index >= 0 {
+			it := names[sh.Index]
+			if sh.Scale > 1 {
+				it = fmt.Sprintf("%s*%d", it, sh.Scale)
+			}
+			paren = "[" + names[sh.Base] + "+(" + it + d + ")]"
+		}
+		for _, mode := range modes {
+			for _, via := range []string{"equ", "paren"} {
+				for _, w := range widths {
+					k++
+					text, pre := paren, ""
+					if via == "equ" {
+						text, pre = "[MEMX]", "MEMX\tEQU\t"+inner+"\n"
+					}
+					mk := func(kw bool) XOp {
+						o := xmem(sh, w, kw, 0, num)
+						o.Text = text
+						if kw {
+							o.Text = o.KW + " " + text
+						}
+						return o
+					}
+					r := xgpr(w, k%8)
+					cell := fmt.Sprintf("w%d %s via=%s", w, memClass(sh), via)
+					n0 := len(g.cases)
+					g.add("MOV", mode, "load", cell, r, mk(false))
+					g.add("MOV", mode, "store", cell, mk(false), r)
+					g.add("MOV", mode, "store-imm", cell, mk(true), ximm(int64(0x11*(k%7+1)), 1))
+					g.add("ADD", mode, "alu-load", cell, r, mk(false))
+					g.add("NOT", mode, "not", cell, mk(true))
+					for _, c := range g.cases[n0:] {
+						c.X.Pre = pre
+					}
+				}
+			}
+		}
+	}
+	return g.cases
+}
+
 func init() {
 	props["C02"] = propCheck{run: func(env *Env, rep *Report) {
-		all := genC02()
+		all := append(genC02(), genC02Spellings()...)
 		rep.Rule = "every case is `[BITS m]` + one carrier instruction (MOV/ALU load, store, store-immediate, NOT, shift, PUSH, POP, accumulator moffs) whose memory operand is one point of the complete addressing space " +
-			"(16-bit: BX/BP x SI/DI, single base, absolute; 32-bit: base in 8 regs or none x index in 7 regs or none x scale 1/2/4/8; x displacement in {none, 0, +-1, 127, 128, -128, -129, 255, 256, 0x7fff, 0x8000, -0x8000, 0x12345678} and 16-bit wrap-around spellings; absolute addresses also as negative numbers -1,-2,-128,-129,-0x8000, which designate the address they wrap to at the mode's address width), in 4 spellings; " +
+			"(16-bit: BX/BP x SI/DI, single base, absolute; 32-bit: base in 8 regs or none x index in 7 regs or none x scale 1/2/4/8; x displacement in {none, 0, +-1, 127, 128, -128, -129, 255, 256, 0x7fff, 0x8000, -0x8000, 0x12345678} and 16-bit wrap-around spellings; absolute addresses also as negative numbers -1,-2,-128,-129,-0x8000, which designate the address they wrap to at the mode's address width), in 4 spellings; shapes with a base and a non-zero displacement also through a nested sum (the whole address behind an EQU name, or its tail in parentheses); " +
 			"non-trivial = assembled without diagnostic and the memory operand decoded by the reference decoder (objdump cross-checked); distinct = (addressing class, displacement class, carrier, width, mode) cells"
 		cases := all
 		if env.Tier == "quick" {
